@@ -148,7 +148,8 @@ def run(chk):
                 if not (isinstance(r, tuple) and len(r) == 4):
                     raise Violation("result", str(r), "(n_start, p, period counter, step count)")
                 ns, p, since, J = r
-                p = to_at(p)
+                if not isinstance(p, AT):
+                    raise Inconclusive(f"initial mask for concrete counts is not an explicit array: {str(p)[:120]}")
                 if lift(ns) != s_c or p.axes != (n_c,):
                     raise Violation("initial state", f"n_start {ns}, mask axes {p.axes}", f"n_start {s_c}, a mask of {n_c} entries")
                 bad = [k_ for k_, e_ in enumerate(p.entries()) if (k_ < s_c) == lift(e_).is_zero()]
@@ -162,11 +163,16 @@ def run(chk):
             if not (lift(r2[0]) == lift(n) and r2[1] is None and r2[2] is None and r2[3] is None):
                 raise Violation("no RAR", str(r2), "(n, None, None, None)")
             return "concrete counts " + "; ".join(msgs) + ": first n_start entries active, period counter update_every - 1, step count 0"
-        conc = concrete()
+        try:
+            conc = concrete()
+        except (Inconclusive, Top) as ex_:
+            conc, conc_why = None, str(ex_)       # the symbolic counts below decide alone
         try:
             r = f(rar_params(), n, n_start)
         except Top:
             # the code needs the counts themselves (e.g. range(n)): the concrete counts are what is established
+            if conc is None:
+                raise Inconclusive(conc_why)
             return conc
         if not (isinstance(r, tuple) and len(r) == 4):
             raise Violation("result", str(r), "(n_start, p, period counter, step count)")
